@@ -12,7 +12,7 @@ import (
 func init() {
 	register("C15", runC15, `Structural clauses of robust partition-table reading, decided statically over the functions reachable from partition.Read (packages partition, gpt, mbr).
 C15-a every table returned lists only partitions decoded from CRC-valid data: the CRC equality edges dominate every success return of the functions that compute a CRC, the checksummed buffer is the decoded one and the header CRC range covers the decoded header bytes (same rules as C09-f).
-C15-b every device-derived value (decoded by encoding/binary or loaded from a byte buffer, propagated through arithmetic, fields and calls) that reaches a make length, a divisor, a slice bound, an index, or the step of a slice-shrinking loop is guarded: a dominating comparison bounds it on the edge taken, all its device-derived operands are guarded, it is loaded from a field validated where it is stored, or its type bounds it below 2^16.
+C15-b every device-derived value (decoded by encoding/binary or loaded from a byte buffer, propagated through arithmetic, fields and calls) that reaches a make length, a divisor, a slice bound, an index, or the step of a slice-shrinking loop is guarded: a dominating comparison bounds it on the edge taken, all its device-derived operands are guarded, it is loaded from a field validated where it is stored, or its type and constant operands bound it below 2^24 (16 MiB).
 Untainted bounds cannot depend on the device contents and are exercised by the valid-image tests. Does not decide termination or absence of panics in general.`)
 }
 
@@ -36,7 +36,7 @@ func runC15(w *World, r *Report) {
 		r.Analysed[o.Function] = true
 	}
 	fns := partitionReaderScope(w)
-	b := newBounds(w, fns)
+	b := newBounds(w, fns, false)
 	boundsReport(w, r, b, "C15-b", map[string]bool{"make": true, "divide": true, "slice": true, "index": true, "step": true})
 	r.Extra["functions_in_scope"] = len(fns)
 	r.Extra["tainted_values"] = len(b.tv)
